@@ -57,6 +57,8 @@ const (
 	sigAdds         = "C18/genesis/import-adds-state"
 	sigImportFails  = "C18/genesis/import-fails"
 	sigSecondExport = "C18/genesis/second-export-differs"
+	sigFlag         = "C18/genesis/genesis-flag-not-honoured"
+	sigInvalid      = "C18/genesis/export-fails-validate-genesis"
 )
 
 // same Store contract as the indexer driver: calldata of (key,value) pairs -> SSTORE + LOG1; 1 byte -> SELFDESTRUCT; 2 bytes -> REVERT
@@ -392,6 +394,20 @@ func (d *gdriver) reference() {
 		} else {
 			d.side.Hit(sigImportFails, fmt.Sprintf("InitChain failed on a default genesis with flags %v: %v", fl, failure), nil)
 		}
+		if failure == nil {
+			// oracle: the flags decide which precompiles exist after InitChain, bech32 always does
+			ictx := app.NewUncachedContext(false, tmproto.Header{Height: height})
+			nat := app.CPCKeeper.GetErc20CustomPrecompiledContractAddressByMinDenom(ictx, bond)
+			if (nat != nil) != fl[0] || (nat != nil && !app.CPCKeeper.HasCustomPrecompiledContract(ictx, *nat)) {
+				d.side.Hit(sigFlag+"/deploy_erc20_native", fmt.Sprintf("flags %v: native ERC-20 precompile present = %v", fl, nat != nil), nil)
+			}
+			if app.CPCKeeper.HasCustomPrecompiledContract(ictx, cpctypes.CpcStakingFixedAddress) != fl[1] {
+				d.side.Hit(sigFlag+"/deploy_staking_contract", fmt.Sprintf("flags %v: staking precompile present = %v", fl, !fl[1]), nil)
+			}
+			if !app.CPCKeeper.HasCustomPrecompiledContract(ictx, cpctypes.CpcBech32FixedAddress) {
+				d.side.Hit(sigFlag+"/bech32", fmt.Sprintf("flags %v: bech32 precompile missing", fl), nil)
+			}
+		}
 		if fl[0] && fl[1] {
 			require.NotNil(t, s, "reference import failed")
 			var nat *big.Int
@@ -468,10 +484,13 @@ func (d *gdriver) roundCase(ci int, r *Rng) {
 	for id, code := range sA.codes {
 		env.hashes[id] = code
 	}
+	for m, e := range g1.invalid {
+		d.side.Hit(sigInvalid+"/"+m, "the exported "+m+" genesis does not pass the module's own validation: "+e, where0(ci, d.seed, erc20Flag, stakingFlag, h.ops))
+	}
 	cp1 := exp1.ConsensusParams
 	appB, failure := newAppFrom(a, exp1.AppState, &cp1, exp1.Height, a.Time)
 	imp, g2t := "None", "None"
-	where := map[string]interface{}{"case": ci, "seed": d.seed, "deploy_erc20_native": erc20Flag, "deploy_staking_contract": stakingFlag, "ops": h.ops}
+	where := where0(ci, d.seed, erc20Flag, stakingFlag, h.ops)
 	if failure != nil {
 		d.side.Hit(sigImportFails, fmt.Sprintf("InitChain on the exported state failed: %v", failure), where)
 	} else {
@@ -494,6 +513,10 @@ func (d *gdriver) roundCase(ci int, r *Rng) {
 	d.side.Count(fmt.Sprintf("case:GRound flags=%v/%v", erc20Flag, stakingFlag))
 	d.side.Count(fmt.Sprintf("state:contracts=%d", min(len(sA.CodeHash), 5)))
 	d.side.Case(idx, fmt.Sprintf("GRound/%v/%v/%s", erc20Flag, stakingFlag, strings.Join(h.ops, ",")), nontrivial, where)
+}
+
+func where0(ci int, seed uint64, erc20Flag, stakingFlag bool, ops []string) map[string]interface{} {
+	return map[string]interface{}{"case": ci, "seed": seed, "deploy_erc20_native": erc20Flag, "deploy_staking_contract": stakingFlag, "ops": ops}
 }
 
 func min(a, b int) int {
